@@ -71,6 +71,18 @@ theorem where_flat {α : Type} (c : PTree Bool) (x y : PTree α) (r : PTree α)
     r.flatten = List.zipWith (fun (b : Bool) (q : α × α) => if b then q.1 else q.2) c.flatten
       (List.zipWith (fun a b => (a, b)) x.flatten y.flatten) := whereOp_flat c x y r h
 
+/-- complex leaves (Gaussian integers, what the driver runs): `vdot(a, b) = Σ conj(a_i) b_i` and `sum` on the flat arrays —
+    instances of `vdot_flat` / `sum_flat` -/
+theorem vdot_flat_complex (a b : PTree GInt) (v : GInt) (h : vdotTree GInt.conj a b = some v) :
+    v = (List.zipWith (fun x y => GInt.conj x * y) a.flatten b.flatten).sum := Pytree.vdot_flat GInt.conj a b v h
+
+theorem sum_flat_complex (t : PTree GInt) (s : GInt) (h : sumTree t = some s) : s = t.flatten.sum := Pytree.sum_flat t s h
+
+/-- **mean_flat** (forest helper): `mean(forest)` is `1/n` times the entry-wise sum of the members' flat arrays -/
+theorem mean_flat {α : Type} [Add α] [Mul α] (inv : α) (t : PTree α) (ts : List (PTree α)) (r : PTree α)
+    (h : meanTrees inv (t :: ts) = some r) :
+    r.flatten = (sumFlats t.flatten (ts.map PTree.flatten)).map fun x => inv * x := Pytree.mean_flat inv t ts r h
+
 /-! ### sequential maps -/
 
 /-- scanning over axis 0 of `moveaxis(a, i, 0)` visits the slices of `a` along axis `i` -/
